@@ -80,35 +80,43 @@ def run(tier):
     # ------------------------------------------------------------------ (a) Layout::validate
     bf = c.bf(P + 'Layout::validate')
     aggs = [(b.idx, s) for b in bf.body.blocks if not b.cleanup and b.idx in bf.cfg.reach for s in b.stmts if s.k == 'assign' and s.rv.k == 'agg' and (s.rv.d.get('adt') or '').endswith('parser::Layout')]
-    if len(aggs) != 1:
+    if not 1 <= len(aggs) <= 4:
         raise CheckError('anchor: Layout::validate builds Layout %d times' % len(aggs))
-    bb, s = aggs[0]
-    fl = dict(zip(s.rv.d['fields'], [peel(term_of_operand(bf, o)) for o in s.rv.ops]))
-    fh = fl['fhdr_len']
-    lin, k = rules.linear(fh)
-    okf = k == 7 and len(lin) == 1
-    if okf:
-        a = peel(list(lin)[0])
-        okf = a[0] == 'BitAnd' and peel(a[1])[0] == 'index' and peel(a[1])[2] == ('const', 5) and a[2] == ('const', 15) and list(lin.values()) == [1]
-    res.require(okf, 'C02:Layout::validate:fhdr_len', 'FHDR length is not 7 + (byte 5 & 0x0f): %s' % term_str(fh), bf.body.path, 'SPEC-LAYOUT(FHDR length)', instance='fhdr_len = 7 + FOptsLen (FCtrl low nibble, frame byte 5)')
-    fe = rules.linear(fl['frm_end'])
-    res.require(fe[1] == -4 and [term_str(x) for x in fe[0]] == ['len(&*arg1)'], 'C02:Layout::validate:frm_end', 'FRMPayload does not end at len - 4', bf.body.path, 'SPEC-LAYOUT(MIC offset)', instance='frm_end = len - 4')
-    pair = rules.find_in_term(fl['f_port_offset'], lambda y: isinstance(y, tuple) and y[0] == 'phi')
     kinds = []
-    if pair is not None:
-        for v, cs, b_ in rules.defs_with_conditions(bf, pair[1]):
-            if v[0] != 'tuple':
+    for bb, s in aggs:
+        fl = dict(zip(s.rv.d['fields'], [peel(term_of_operand(bf, o)) for o in s.rv.ops]))
+        fh = fl['fhdr_len']
+        lin, k = rules.linear(fh)
+        okf = k == 7 and len(lin) == 1
+        if okf:
+            a = peel(list(lin)[0])
+            okf = a[0] == 'BitAnd' and peel(a[1])[0] == 'index' and peel(a[1])[2] == ('const', 5) and a[2] == ('const', 15) and list(lin.values()) == [1]
+        res.require(okf, 'C02:Layout::validate:fhdr_len', 'FHDR length is not 7 + (byte 5 & 0x0f): %s' % term_str(fh), bf.body.path, 'SPEC-LAYOUT(FHDR length)', instance='fhdr_len = 7 + FOptsLen (FCtrl low nibble, frame byte 5)')
+        fe = rules.linear(fl['frm_end'])
+        res.require(fe[1] == -4 and [term_str(x) for x in fe[0]] == ['len(&*arg1)'], 'C02:Layout::validate:frm_end', 'FRMPayload does not end at len - 4', bf.body.path, 'SPEC-LAYOUT(MIC offset)', instance='frm_end = len - 4 (MIC offset)')
+        # the (FPort offset, FRMPayload start) pair of this construction: a phi of tuples, or the two fields directly
+        cases = []
+        pair = rules.find_in_term(fl['f_port_offset'], lambda y: isinstance(y, tuple) and y[:1] == ('phi',))
+        if pair is not None:
+            for v, cs, b_ in rules.defs_with_conditions(bf, pair[1]):
+                cases.append((peel(v[1][0]), peel(v[1][1]), cs) if v[0] == 'tuple' and len(v[1]) == 2 else (None, None, cs))
+        else:
+            cases.append((fl['f_port_offset'], fl['frm_start'], path_conditions(bf, bb)))
+        after = (dict(lin), 8 - 7 + k) if okf else None           # 1 + fhdr_len
+        for po, st, cs in cases:
+            if po is None or after is None:
                 kinds.append('other')
                 continue
-            po, st = peel(v[1][0]), peel(v[1][1])
-            lt = [x for x in cs if x[0][0] == 'Lt' and rules.linear(x[0][2]) == fe]
-            after = rules.linear(lt[-1][0][1]) if lt else None
-            good_after = after is not None and after[1] == 8 and len(after[0]) == 1
+            after_t = ('Add', fh, ('const', 1))
             if po[0] == 'agg' and po[1].endswith('Option::Some'):
-                kinds.append('port' if lt and cond_true(lt[-1]) and good_after and rules.linear(po[2][0][1]) == after and rules.linear(st) == (after[0], after[1] + 1) else 'bad-port')
+                good = rules.linear(po[2][0][1]) == rules.linear(after_t) and rules.linear(st) == rules.linear(('Add', after_t, ('const', 1))) and rules.implies_order(cs, '<', after_t, fl['frm_end'])
+                kinds.append('port' if good else 'bad-port')
+            elif po[0] == 'agg' and po[1].endswith('Option::None'):
+                good = rules.linear(st) == rules.linear(after_t) and rules.implies_order(cs, '<=', fl['frm_end'], after_t)
+                kinds.append('noport' if good else 'bad-noport')
             else:
-                kinds.append('noport' if lt and cond_false(lt[-1]) and good_after and rules.linear(st) == after else 'bad-noport')
-    res.require(sorted(kinds) == ['noport', 'port'], 'C02:Layout::validate:port-and-payload', 'FPort / FRMPayload offsets are not (Some(1 + fhdr_len), +1) when bytes remain before the MIC, else (None, 1 + fhdr_len): %s' % kinds,
+                kinds.append('other')
+    res.require(sorted(set(kinds)) == ['noport', 'port'], 'C02:Layout::validate:port-and-payload', 'FPort / FRMPayload offsets are not (Some(1 + fhdr_len), +1) when bytes remain before the MIC, else (None, 1 + fhdr_len): %s' % kinds,
                 bf.body.path, 'SPEC-LAYOUT(FPort, FRMPayload offsets)', instance='FPort at 1 + fhdr_len iff bytes remain before the MIC; FRMPayload right after it')
     errs = {}
     for b in bf.body.blocks:
@@ -246,7 +254,12 @@ def run(tier):
         wbb = wr[0][0]
         exits = rules.err_exits(bd)
         after = [e for e in exits if bd.cfg.can_reach(wbb, e['bb'])]
-        before_ok = any(has_call(x[0], 'Layout::validate') for x in path_conditions(bd, wbb)) and any(has_call(x[0], 'ok_or') for x in path_conditions(bd, wbb))
+        wconds = path_conditions(bd, wbb)
+        # the key handed to the write exists: `ok_or(MissingKey)?` or a match whose None arm returned before
+        key_checked = any(has_call(x[0], 'ok_or') for x in wconds) or any(
+            x[0][0] == 'discr' and x[1] in ((1,), ('not', (0,))) and term_contains(x[0], lambda y: y in (('param', param_by_name(bd.body, 'app_crypto')), ('param', param_by_name(bd.body, 'nwk_crypto'))) or (isinstance(y, tuple) and y[:1] == ('phi',)))
+            for x in wconds)
+        before_ok = any(has_call(x[0], 'Layout::validate') for x in wconds) and key_checked
         okd = not after and before_ok
     res.require(okd, 'C02:decrypt_in_place:no-error-after-write', 'decrypt_in_place can return an error after it has written to the buffer, or writes before structure / key checks (writers %s)' % wr, bd.body.path,
                 'EFFECT(single write) + no Err exit reachable from it', instance='decrypt_in_place: one write (XOR keystream), after Layout::validate and the key check, no error return after it')
@@ -262,22 +275,65 @@ def run(tier):
         hi_ok = all(bl[k_] == ('i', 'arg%d' % fcp, k_) for k_ in range(16, 32))
         want_lo = [('i', 'index(*arg%d, 6)' % bufd, k_) for k_ in range(8)] + [('i', 'index(*arg%d, 7)' % bufd, k_) for k_ in range(8)]
         okk = okk and hi_ok and bl[:16] == want_lo
-        # key: phi over app / nwk selected by (port present and != 0)
-        key = rules.find_in_term(a[4], lambda y: isinstance(y, tuple) and len(y) >= 3 and y[0] == 'call' and y[1].endswith('ok_or'))
-        okk = okk and key is not None and peel(key[2][0])[0] == 'phi'
+        # key: the Option the key is taken from is app_crypto exactly when a port is present and non-zero, else nwk_crypto
+        kt = rules._strip_wrappers(a[4])
+        okk = okk and isinstance(kt, tuple) and kt[:1] == ('phi',)
         if okk:
-            sel = {}
-            for v, cs, b_ in rules.defs_with_conditions(bd, peel(key[2][0])[1]):
-                which = 'app' if peel(v) == ('param', param_by_name(bd.body, 'app_crypto')) else 'nwk' if peel(v) == ('param', param_by_name(bd.body, 'nwk_crypto')) else 'other'
-                flag = [x for x in cs if isinstance(x[0], tuple) and x[0][0] == 'phi']
-                sel[which] = (cond_true(flag[-1]) if flag else None, flag[-1][0][1] if flag else None)
-            okk = set(sel) == {'app', 'nwk'} and sel['app'][0] is True and sel['nwk'][0] is False and sel['app'][1] == sel['nwk'][1]
-            if okk:
-                # the flag: true only under Some(off) and buf[off] != 0
-                fdefs = rules.defs_with_conditions(bd, sel['app'][1])
-                tr = [(v, cs) for v, cs, b_ in fdefs if v in (('const', 1), ('const', True))]
-                okk = len(tr) == 1 and any(x[0][0] == 'discr' and 'f_port_offset' in term_str(x[0]) and x[1] == (1,) for x in tr[0][1]) and \
-                    any(x[0][0] == 'Ne' and x[0][2] == ('const', 0) and cond_true(x) and peel(x[0][1])[0] == 'index' for x in tr[0][1])
+            appp, nwkp = ('param', param_by_name(bd.body, 'app_crypto')), ('param', param_by_name(bd.body, 'nwk_crypto'))
+
+            def port_nonzero(al):
+                some = any(x[0][0] == 'discr' and 'f_port_offset' in term_str(x[0]) and x[1] in ((1,), ('not', (0,))) for x in al)
+                nz = any(x[0][0] == 'Ne' and x[0][2] == ('const', 0) and cond_true(x) and peel(x[0][1])[0] == 'index' for x in al) or \
+                    any(x[0][0] == 'Eq' and x[0][2] == ('const', 0) and cond_false(x) and peel(x[0][1])[0] == 'index' for x in al)
+                return some and nz
+
+            def port_absent_or_zero(al):
+                if any(x[0][0] == ('marker', 'absent_or_zero') for x in al):
+                    return True
+                none = any(x[0][0] == 'discr' and 'f_port_offset' in term_str(x[0]) and x[1] in ((0,), ('not', (1,))) for x in al)
+                z = any(x[0][0] == 'Ne' and x[0][2] == ('const', 0) and cond_false(x) and peel(x[0][1])[0] == 'index' for x in al) or \
+                    any(x[0][0] == 'Eq' and x[0][2] == ('const', 0) and cond_true(x) and peel(x[0][1])[0] == 'index' for x in al)
+                return none or z
+            def alternatives(conds, depth=0):
+                # expand a condition on a boolean flag local into the conditions under which the flag got that value
+                alts = [[]]
+                for x in conds:
+                    t_ = x[0]
+                    if isinstance(t_, tuple) and t_[:1] == ('phi',) and depth < 2 and (cond_true(x) or cond_false(x)):
+                        want_ = 1 if cond_true(x) else 0
+                        subs = []
+                        fd_ = rules.defs_with_conditions(bd, t_[1])
+                        for v_, cs_, b_ in fd_:
+                            if v_ in (('const', want_), ('const', bool(want_))):
+                                subs += alternatives(cs_, depth + 1)
+                        if want_ == 0:
+                            # a flag with one `true` definition (under: port present and non-zero) and a default `false`:
+                            # flag false is the complement of that condition
+                            tds = [cs_ for v_, cs_, b_ in fd_ if v_ in (('const', 1), ('const', True))]
+                            if len(tds) == 1 and len(fd_) == 2 and port_nonzero(tds[0]):
+                                subs = [s_ + [((('marker', 'absent_or_zero'), None, None), (1,))] for s_ in (subs or [[]])]
+                        if subs:
+                            alts = [a_ + s_ for a_ in alts for s_ in subs]
+                            continue
+                    alts = [a_ + [x] for a_ in alts]
+                return alts
+
+            seen_ = set()
+            kdefs = rules.defs_with_conditions(bd, kt[1])
+            app_defs = [d_ for d_ in kdefs if peel(d_[0]) == appp]
+            # one specific arm (port present and non-zero -> application key) and a default arm: the default is its complement
+            complement = len(app_defs) == 1 and len(kdefs) == 2 and all(port_nonzero(al) for al in alternatives(app_defs[0][1]))
+            for v, cs, b_ in kdefs:
+                which = 'app' if peel(v) == appp else 'nwk' if peel(v) == nwkp else 'other'
+                seen_.add(which)
+                alts = alternatives(cs)
+                if which == 'app':
+                    okk = okk and all(port_nonzero(al) for al in alts)
+                elif which == 'nwk':
+                    okk = okk and (complement or all(port_absent_or_zero(al) for al in alts))
+                else:
+                    okk = False
+            okk = okk and seen_ == {'app', 'nwk'}
     res.require(okk, 'C02:decrypt_in_place:key-and-counter', 'decryption is not (AppSKey iff a non-zero FPort exists, else NwkSKey; counter = high half of the argument | wire bytes 6..8 LE; range frm_start..frm_end)', bd.body.path,
                 'TABLE(port -> key) + BITS(counter reconstruction)', instance='decrypt: AppSKey iff FPort present and non-zero; counter = (fcnt & 0xffff0000) | wire16; range = FRMPayload')
     # ------------------------------------------------------------------ (e) involution
